@@ -8,7 +8,7 @@ from ..astutil import dotted, is_const, is_none, norm, walk_body, walk_local
 from ..digest import contributions
 from ..dtree import decision_tree, strip_casts
 from ..effects import scan_mutations
-from ..finite import canon_cmp
+from ..finite import k_eq, k_is, k_none, canon_cmp
 from ..flow import Interp, Semantics
 from ..report import Checker
 from ..srcmodel import Func, Unsupported
@@ -514,12 +514,10 @@ def r_id_det(ck: Checker) -> None:
 def r_get_form(ck: Checker) -> None:
     f = ck.repo.func(NODE, "ASTNode.get")
     body = strip_casts(f.node.body)
-    first = [s for s in body if not (isinstance(s, ast.Expr) and isinstance(s.value, ast.Constant))][0]
-    if not (isinstance(first, ast.Assign) and isinstance(first.targets[0], ast.Name) and norm(first.value) in (f"{REG}.get(id)", f"{REG}.get(id, None)")):
-        raise Unsupported("get does not start with <ret> = NODE_REGISTRY.get(id)", first)
-    r = first.targets[0].id
+    idp = f.node.args.args[1].arg
+    r = f"{REG}.get({idp})"
     leaves = decision_tree(body)
-    found, strict = f"is(None,{r})", "strict"
+    found, strict = k_none(r), "strict"
     exact = "eq(" + ",".join(sorted(("cls", f"type({r})"))) + ")"
     exact_is = "is(" + ",".join(sorted(("cls", f"type({r})"))) + ")"
     inst = f"isinstance({r}, cls)"
@@ -555,16 +553,23 @@ def r_get_form(ck: Checker) -> None:
             bad.append(f"{a}: returns {got}, expected {expected}")
     what = "get(id, default, strict) returns the registered node iff it exists and (strict: type(node) == cls; else isinstance(node, cls)), otherwise default"
     if bad:
+        unrec = [b for b in bad if b.startswith("decides on")]
+        if unrec and len(unrec) == len(bad):
+            raise Unsupported(f"get: {unrec[0]}", f.node)
         ck.violation("R-GET-FORM", f, f.node, what, evaluations=len(leaves), construct=f"get: {bad[0]}")
     else:
         ck.holds("R-GET-FORM", f, f.node, what, evaluations=len(leaves))
     g = ck.repo.func(NODE, "ASTNode.get_any")
     rets = [s for s in walk_body(g.node.body) if isinstance(s, ast.Return)]
     what = "get_any(id, default) is the plain registry lookup"
-    if len(rets) == 1 and rets[0].value is not None and norm(rets[0].value) == f"{REG}.get(id, default)":
+    rtxt = [norm(r.value) for r in rets if r.value is not None]
+    ok_forms = (f"{REG}.get(id, default)", f"default if {REG}.get(id) is None else {REG}.get(id)", f"{REG}.get(id) if {REG}.get(id) is not None else default")
+    if len(rets) == 1 and rtxt and rtxt[0] in ok_forms:
         ck.holds("R-GET-FORM", g, rets[0], what)
+    elif rtxt and all(REG in x for x in rtxt) and any("default" in x for x in rtxt):
+        raise Unsupported(f"get_any returns {rtxt}", g.node)
     else:
-        ck.violation("R-GET-FORM", g, g.node, what, construct=f"get_any returns {[norm(r.value) for r in rets if r.value is not None]}")
+        ck.violation("R-GET-FORM", g, g.node, what, construct=f"get_any returns {rtxt}")
 
 
 def run(ck: Checker) -> None:
